@@ -56,7 +56,7 @@ func checkC09(c *Ctx) {
 	c.Alias("C08.R2", "")
 	c.Floor("C09.R8", 6)
 	a.eccentricity()
-	c.Floor("C09.R7", 8)
+	c.Floor("C09.R7", 4)
 	c.Floor("C09.R6", 8)
 	c.Floor("C09.R1", 70)
 	c.Floor("C09.R2", 1)
